@@ -245,3 +245,46 @@ package fosite
 
 // Number of times a token strategy accepted a given presented string (bumped by every successful Validate*).
 //@ ghost validated_n : map[string]int
+
+// ---------------------------------------------------------------- C11: redirect URI matching
+//@ spec func loopback(host string) bool = net.ParseIP(host).IsLoopback()
+// loopmatch: the loopback exception - http, loopback IP literal, same host name, path and query as the registered URI (any port).
+//@ spec func loopmatch(raw string, reg string) bool = url_ok(reg) && url_scheme(raw) == "http" && loopback(hostname_of(url_host(raw))) && hostname_of(url_host(reg)) == hostname_of(url_host(raw)) && url_path(reg) == url_path(raw) && url_rawquery(reg) == url_rawquery(raw)
+//@ spec func redirect_ok(raw string, regs []string, u string) bool = (raw == "" && len(regs) == 1 && u == regs[0]) || (raw != "" && u == raw && url_ok(raw) && (exists j int :: 0 <= j && j < len(regs) && (regs[j] == raw || loopmatch(raw, regs[j]))))
+//@ spec func valid_redirect(u *url.URL) bool = govalidator.IsRequestURL(urlstr(u)) && u.Fragment == ""
+
+//@ func isLoopbackAddress
+//@   ensures [C11.loopback-rule] result == loopback(hostname)
+
+//@ func isMatchingAsLoopback
+//@   requires requested != nil
+//@   ensures [C11.loopback-rule] result <==> (url_ok(registeredURI) && requested.Scheme == "http" && loopback(hostname_of(requested.Host)) && hostname_of(url_host(registeredURI)) == hostname_of(requested.Host) && url_path(registeredURI) == requested.Path && url_rawquery(registeredURI) == requested.RawQuery)
+
+//@ func isMatchingRedirectURI
+//@   ensures [C11.match-spec] result1 <==> (url_ok(uri) && (exists j int :: 0 <= j && j < len(haystack) && (haystack[j] == uri || loopmatch(uri, haystack[j]))))
+//@   ensures [C11.match-spec] result1 ==> result0 == uri
+//@   ensures [C11.match-spec] !result1 ==> result0 == ""
+//@   invariant loop#1 [C11.match-spec] $i <= len(haystack) && url_ok(uri) && requested != nil && requested.Scheme == url_scheme(uri) && requested.Host == url_host(uri) && requested.Path == url_path(uri) && requested.RawQuery == url_rawquery(uri) && (forall j int :: 0 <= j && j < $i ==> haystack[j] != uri && !loopmatch(uri, haystack[j]))
+
+//@ func IsValidRedirectURI
+//@   requires redirectURI != nil
+//@   ensures [C11.absolute-no-fragment] result == valid_redirect(redirectURI)
+
+//@ func MatchRedirectURIWithClientRedirectURIs
+//@   requires client != nil
+//@   ensures [C11.match-spec] err == nil ==> result0 != nil && (exists u string :: redirect_ok(rawurl, client.GetRedirectURIs(), u) && url_ok(u) && result0.Scheme == url_scheme(u) && result0.Host == url_host(u) && result0.Path == url_path(u) && result0.RawQuery == url_rawquery(u))
+//@   ensures [C11.absolute-no-fragment] err == nil ==> valid_redirect(result0)
+//@   ensures [C11.no-match-no-url] err != nil ==> result0 == nil && ekind(err) == "invalid_request"
+//@   ensures [C11.match-complete] (exists u string :: redirect_ok(rawurl, client.GetRedirectURIs(), u) && url_ok(u) && govalidator.IsRequestURL(url_str(url_scheme(u), url_opaque(u), url_host(u), url_path(u), url_rawquery(u), url_fragment(u))) && url_fragment(u) == "") ==> err == nil
+
+//@ func IsLocalhost
+//@   requires redirectURI != nil
+//@   ensures [C11.http-only-local] result <==> (strings.HasSuffix(hostname_of(redirectURI.Host), ".localhost") || loopback(hostname_of(redirectURI.Host)) || hostname_of(redirectURI.Host) == "localhost")
+
+//@ func IsRedirectURISecure
+//@   requires redirectURI != nil
+//@   ensures [C11.http-only-local] result <==> !(redirectURI.Scheme == "http" && !(strings.HasSuffix(hostname_of(redirectURI.Host), ".localhost") || loopback(hostname_of(redirectURI.Host)) || hostname_of(redirectURI.Host) == "localhost"))
+
+//@ func IsRedirectURISecureStrict
+//@   requires redirectURI != nil
+//@   ensures [C11.http-only-local] result <==> (redirectURI.Scheme == "https" || (redirectURI.Scheme == "http" && (strings.HasSuffix(hostname_of(redirectURI.Host), ".localhost") || loopback(hostname_of(redirectURI.Host)) || hostname_of(redirectURI.Host) == "localhost")))
